@@ -68,6 +68,17 @@ def _functor_get_value(self):
 Functor.get_value = _functor_get_value
 
 
+@contextlib.contextmanager
+def without_work_counter():
+    """the counting wrapper costs one Python frame per level of a nested term; where the number of frames IS the
+    subject (C17), fixed programs whose cost is known run on the engine's own method"""
+    Functor.get_value = _orig_functor_get_value
+    try:
+        yield
+    finally:
+        Functor.get_value = _functor_get_value
+
+
 class Ctx:
     debug_filename = ''
     debug_parser = False
